@@ -600,7 +600,8 @@ impl<'a> Blitter for ShaderBlendBlitter<'a> {
         let dest_row = (y - self.y) * self.dest_stride;
         let count = (x2 - x1) as usize;
         self.shader.shade_span(x1, y, &mut self.tmp[..], count);
-        (self.blend_fn)(&self.tmp[..],
+        // only `count` pixels were shaded: the row proc stops at the shorter of its two slices
+        (self.blend_fn)(&self.tmp[..count],
                         &mut self.dest[(dest_row + x1 - self.x) as usize..])
     }
 }
